@@ -381,6 +381,23 @@ func (in *Inst) RunTxn(rec *Recorder, aops []abs.AOp) (map[string]interface{}, e
 			results = []*ovsdb.OperationResult{}
 		}
 	}
+	return in.RecordTxn(rec, aops, results, commitErr, false)
+}
+
+// RecordTxn observes the database after a transaction and emits its event.
+// padded: the results were decoded by a client, which turns the null padding
+// after a failed operation into empty results.
+func (in *Inst) RecordTxn(rec *Recorder, aops []abs.AOp, results []*ovsdb.OperationResult, commitErr string, padded bool) (map[string]interface{}, error) {
+	if padded {
+		failed := false
+		for i, r := range results {
+			if failed {
+				results[i] = nil
+			} else if r != nil && r.Error != "" {
+				failed = true
+			}
+		}
+	}
 	ares := []interface{}{}
 	errIdx := 0
 	errKind := ""
